@@ -5,8 +5,11 @@
    references never unfold at generation time (so recursion terminates: gen recurses on the schema
    tree only).  The comparison of ref-form and inlined-form programs on documents, file resolution
    relative to the referring document (repaired defect D40) and cross-file layouts are decided on the
-   implementation by the correspondence run; file loading is outside the Coq model. *)
-From GJS Require Import Base Schema GoType Gen Exec GenP ExecP.
+   implementation by the correspondence run; file loading is outside the Coq model.
+   End to end (C10_refs_transparent): an object property given by reference to an object definition - at any nesting depth, next to
+   inline objects and scalar leaves - is accepted iff the document is valid under the schema with the reference followed, i.e. the
+   reference form decides exactly like the reference semantics, which inlines the definition. *)
+From GJS Require Import Base Schema GoType Gen Exec Valid GenP ExecP LevelP NestedP.
 
 Theorem C10_one_type_per_definition : forall idf cf defs f self sub s scope x d,
   c_enum (s_con s) = None -> c_ref (s_con s) = Some x -> lookup x defs = Some d ->
@@ -42,3 +45,23 @@ Example C10_recursion :
     is_ok (dec (fun _ _ => true) (p_defs p) 60 t
              (JObj [([118]%N, JInt 1); ([110]%N, JObj [([118]%N, JInt 2); ([110]%N, JObj [([118]%N, JInt (-3))])])])) = false.
 Proof. eexists. eexists. split; [vm_compute; reflexivity|]. split; [reflexivity|]. vm_compute. split; reflexivity. Qed.
+
+(* references inside the end-to-end statement: [sobj n] allows, at every level, properties that are references to definitions which are
+   scalar objects of depth below n (same definition for the generator and for the reference semantics; the environment holds the type
+   generated for it) *)
+Theorem C10_refs_transparent : forall idf cf defs fmt_ok env sdefs,
+  g_minsized cf = false -> g_only_models cf = false ->
+  forall n a b c self sub s scope t bb kv,
+  scope <> [] -> sobj idf cf defs env sdefs n s -> dok idf cf defs env sdefs n s kv ->
+  gen idf cf defs (fuelG n a) MDeclared self sub s scope = Done (t, bb) ->
+  is_ok (dec fmt_ok env (fuelD n b) t (JObj kv)) = valid fmt_ok sdefs (fuelV n c) s (JObj kv).
+Proof. exact nested_object_exact. Qed.
+Print Assumptions C10_refs_transparent.
+
+Theorem C10_refs_inhabited :
+  exists t b, gen (fun s => s) (mkCfg false false) ex_defs (fuelG 1 0) MDeclared None false ex_refroot [82]%N = Done (t, b) /\
+    (forall kv, In kv [ex_ref_doc; ex_ref_bad] ->
+       is_ok (dec (fun _ _ => true) ex_env (fuelD 1 0) t (JObj kv)) = valid (fun _ _ => true) ex_defs (fuelV 1 0) ex_refroot (JObj kv)) /\
+    map (fun kv => valid (fun _ _ => true) ex_defs (fuelV 1 0) ex_refroot (JObj kv)) [ex_ref_doc; ex_ref_bad] = [true; false].
+Proof. exact ref_inhabited. Qed.
+Print Assumptions C10_refs_inhabited.
